@@ -128,6 +128,16 @@ func stdMethodWrites(obj *types.Func) (known bool, writes bool) {
 		}
 	case "math/rand":
 		return true, true // *rand.Rand methods advance the generator state
+	case "os":
+		// *os.File: everything that moves the shared file offset or changes the file is a write to the handle's state
+		if funcIs(obj, "os", "File", obj.Name()) {
+			switch obj.Name() {
+			case "Seek", "Read", "Write", "WriteString", "ReadFrom", "WriteTo", "Truncate", "Close", "Sync":
+				return true, true
+			case "ReadAt", "WriteAt", "Stat", "Name", "Fd":
+				return true, false
+			}
+		}
 	}
 	return false, false
 }
@@ -141,7 +151,7 @@ type RaceAnalysis struct {
 // from shared memory, so no other goroutine can reach it yet.
 type freshCtx struct {
 	p    *Prog
-	deep bool // deep: containers reachable from the object are private too (the object is not a copy of a shared one)
+	deep bool              // deep: containers reachable from the object are private too (the object is not a copy of a shared one)
 	memo map[ssa.Value]int // 1 fresh, 2 not, 3 in progress
 }
 
@@ -269,12 +279,13 @@ func (fc *freshCtx) argFresh(a ssa.Value, depth int) bool {
 	return fc.fresh(a, depth)
 }
 
-func (c *Ctx) Races() *RaceAnalysis {
-	if r, ok := c.memo["races"]; ok {
+func (c *Ctx) Races() *RaceAnalysis { return c.racesFor(c.Locks(), "races") }
+
+func (c *Ctx) racesFor(la *LockAnalysis, memoKey string) *RaceAnalysis {
+	if r, ok := c.memo[memoKey]; ok {
 		return r.(*RaceAnalysis)
 	}
 	p := c.P
-	la := c.Locks()
 	ra := &RaceAnalysis{Accesses: map[string][]Access{}}
 	fc := &freshCtx{p: p, memo: map[ssa.Value]int{}}
 	fcDeep := &freshCtx{p: p, deep: true, memo: map[ssa.Value]int{}}
@@ -393,6 +404,16 @@ func (c *Ctx) Races() *RaceAnalysis {
 						}
 						continue
 					}
+					for ai, a := range cc.Args {
+						if ai == 0 && !cc.IsInvoke() && obj.Type().(*types.Signature).Recv() != nil {
+							continue // the receiver is handled below
+						}
+						if f := osFileOperand(a); f != nil {
+							if root := p.containerRoot(f, 0); root != nil && !rootFresh(f) {
+								add(root, "→obj", ins, true, false, "file passed to "+obj.Name())
+							}
+						}
+					}
 					known, writes := stdMethodWrites(obj)
 					if !known {
 						continue
@@ -414,7 +435,7 @@ func (c *Ctx) Races() *RaceAnalysis {
 		ra.Classes = append(ra.Classes, cls)
 	}
 	sort.Strings(ra.Classes)
-	c.memo["races"] = ra
+	c.memo[memoKey] = ra
 	return ra
 }
 
@@ -429,10 +450,10 @@ func init() {
 		Run:  runRace})
 }
 
-func runRace(c *Ctx, r *RuleRun) {
+func runRace(c *Ctx, r *RuleRun) { runRaceWith(c, r, c.Locks(), c.Races()) }
+
+func runRaceWith(c *Ctx, r *RuleRun, la *LockAnalysis, ra *RaceAnalysis) {
 	p := c.P
-	la := c.Locks()
-	ra := c.Races()
 	for _, cls := range ra.Classes {
 		accs := ra.Accesses[cls]
 		owner := p.fieldOwner(accs[0].Field)
